@@ -23,6 +23,8 @@ def main(ctx):
     # bilateral filter: a map straddling its 50-pixel blocks agrees with a single-block crop (position on the block grid does not matter)
     J.append({'mod': 'vf.harness.c10', 'fn': 'bilateral_blocks', 'mode': 'sym', 'args': {'axis': 1, 'N': 53, 'lo': 47, 'hi': 53, 'cap': cap, 'seed': ctx.seed}})
     J.append({'mod': 'vf.harness.c10', 'fn': 'bilateral_blocks', 'mode': 'sym', 'args': {'axis': 0, 'N': 104, 'lo': 49, 'hi': 55, 'invalid_upto': 48, 'cap': cap, 'seed': ctx.seed}})
+    # zncc window statistics do not depend on the row position (double-precision accumulation, bit-precise float harness)
+    J.append({'mod': 'vf.harness.c02', 'fn': 'mean_raster_fp', 'mode': 'sym', 'args': {'H': 2, 'W': 1, 'win': 1, 'cap': cap}})
     # a run must not write into the images it was given (tiles taken as views of one array would otherwise see each other's NaNs)
     J.append({'mod': 'vf.harness.c18', 'fn': 'cbca_inputs', 'mode': 'sym', 'args': {'cap': cap}})
     if not ctx.quick:
